@@ -572,7 +572,7 @@ def run(ctx):
 
 def replay(ctx, rp):
     ok, out = lib.cargo_build([BIN])
-    case = rp["case"]
+    case = rp.get("case") or rp      # a replay file, or a corpus case given directly
     if "ops" in case:
         line = " ".join(case["ops"])
         _, b, _ = lib.run_vh(BIN, [line])
